@@ -61,6 +61,7 @@ def errClass (msg : String) : String :=
   else if isSub "weight should not be negative".toList m then "negweight"
   else if isSub "must follow a request".toList m then "sleepfirst"
   else if isSub "not found".toList m then "notfound"
+  else if isSub "a scenario may hold at most".toList m then "toomany"
   else "other:" ++ msg
 
 /-- `if cond { x, err = strconv.Atoi(arg); if err != nil { return …, fmt.Errorf(msg) } }` then continue with `x` -/
